@@ -4,18 +4,17 @@ From BX Require Import Base.Prelude Base.Sha256 Model.JsonAcct Model.Merkle Mode
   Proofs.LedgerWitness Proofs.RefineMain Proofs.RefineProps.
 Local Open Scope N_scope.
 
-(** C12_rollback_restores.  For EVERY block history (any sequence of the proved operations from
+(** C12_rollback_restores.  For EVERY block history (any sequence of operations from
     the empty ledger, inside the domain) and every rollback in it, the repaired model's observables
     agree with the specification, and the specification's Rollback(t), for t inside the retained
     window, makes every balance, nonce, contract code and storage key read as recorded by Commit(t),
     continues the root chain from the root recorded at t, and empties the in-block state
-    ([C12_spec_rollback_restores], by definition of the specification).  Contract code (SetCode with
-    a non-nil code, the journal's PrevCode) is inside the theorem; the premises say that the code
+    ([C12_spec_rollback_restores], by definition of the specification).  Contract code (SetCode, also
+    with a nil code, the journal's PrevCode) is inside the theorem; the premises say that the code
     hash function never returns the empty string and does not collide. *)
 Theorem C12_rollback_restores : forall (e : env),
   (forall c, e_kec e c <> []) -> (forall c c', e_kec e c = e_kec e c' -> c = c') ->
   forall ops : list op,
-  forallb proved_op ops = true ->
   spec_agree_P wf_thm_b false e spec0 ops (snd (run e cfg_fixed st0 ops)).
 Proof. exact refine_from_empty. Qed.
 Print Assumptions C12_rollback_restores.
